@@ -299,6 +299,11 @@ class t2grid(object):
                     newblock.connection_name.add(conname)
         else: self.blocklist.append(newblock)
         self.block[newblock.name] = newblock
+        # the block's rock type must be one registered in the grid:
+        rt = newblock.rocktype
+        if rt is not None:
+            if rt.name in self.rocktype: newblock.rocktype = self.rocktype[rt.name]
+            else: self.add_rocktype(rt)
 
     def delete_block(self, blockname):
         """Deletes a block from the grid"""
